@@ -82,13 +82,31 @@ Fixpoint framed_k (stk : list bool) (l : list fop) : bool :=
           match o with
           | FBlock _ | FLoop _ => framed_k (false :: stk) l'
           | FIf _ => framed_k (true :: stk) l'
-          | FElse => if k then framed_k stk l' else false
+          | FElse => if k then framed_k stk l' else false   (* the reader tolerates a second else; the validator does not *)
           | FEnd => framed_k rest l'
           | _ => framed_k stk l'
           end
       end
   end.
 Definition framed (l : list fop) := framed_k [false] l.
+(* structural well-formedness as the *validator* sees it: at most one else per if *)
+Fixpoint wf_k (stk : list bool) (l : list fop) : bool :=
+  match l with
+  | [] => is_nil stk
+  | o :: l' =>
+      match stk with
+      | [] => false
+      | k :: rest =>
+          match o with
+          | FBlock _ | FLoop _ => wf_k (false :: stk) l'
+          | FIf _ => wf_k (true :: stk) l'
+          | FElse => if k then wf_k (false :: rest) l' else false
+          | FEnd => wf_k rest l'
+          | _ => wf_k stk l'
+          end
+      end
+  end.
+Definition wellformed (l : list fop) := wf_k [false] l.
 Definition MALFORMED : list fop := [FOther 999999].
 
 (* what the harness can observe of an emitted body [b]: the body itself when its frames close, the
